@@ -980,7 +980,7 @@ def run_event_case(case, seed):
     N = info['N']
     ev = {'ev': 'conv', 'tid': case['tid'], 'kind': kind, 'R': R, 'C': C, 'N': N, 'bg': list(lay['bg']),
           'en': list(lay['en']), 'out': 'ok', 'hist': hist, 'bins': [], 'edges': [],
-          'same': {'masks': True, 'evmasks': True, 'coords': True, 'evcoord': True, 'input': True}}
+          'same': {'masks': True, 'evmasks': True, 'coords': True, 'evcoord': True, 'input': True, 'formula': True}}
     flags = [k for k in ('edges2d', 'transpose', 'geom_t', 'view', 'squeeze') if opts[k]]
     if opts['container'] == 'ds':
         flags.append('Dataset')
@@ -1056,6 +1056,28 @@ def run_event_case(case, seed):
     meta['new_event_coords'] = sorted(new_ev)
     names = sorted(set(new_ev) | {t})
     tab = dense_table(info, var, o, info['ovals'], 'slot', names, info['uev'], info['pulse_ev'])
+    # integer-typed event coordinates: "the value the dense formula gives for that event's coordinate" is the value
+    # for that NUMBER - the same numbers handed over as doubles (same unit) must give the same table up to rounding
+    # (1e-11 relative; a conversion that rounds integer nanoseconds to whole microseconds is off by 1e-4)
+    if str(ev_dtype).startswith('int'):
+        try:
+            pulse64 = None if info['pulse_ev'] is None else np.asarray(info['pulse_ev']).astype('float64') \
+                if np.asarray(info['pulse_ev']).dtype.kind in 'iu' else info['pulse_ev']
+            tab64 = dense_table(info, var, o, np.asarray(info['ovals']).astype('float64'), 'slot', names, info['uev'], pulse64)
+            for name, (arr, unit, _dt) in tab.items():
+                if name not in tab64 or tab64[name][1] != unit:
+                    continue
+                a, b_ = np.asarray(arr, dtype='float64'), np.asarray(tab64[name][0], dtype='float64')
+                fin = np.isfinite(b_)
+                if a.shape != b_.shape or not np.array_equal(np.isfinite(a), fin):
+                    continue       # which events are unphysical is judged through the value-ids
+                scale = float(np.max(np.abs(b_[fin]))) if fin.any() else 0.0
+                if fin.any() and not np.all(np.abs(a[fin] - b_[fin]) <= 1e-11 * np.abs(b_[fin]) + 1e-13 * scale):
+                    ev['same']['formula'] = False
+                    meta['note'] = (f'{name}: dense table of the integer-typed numbers differs from the table of the same '
+                                    f'numbers as doubles by up to {float(np.max(np.abs(a[fin] - b_[fin]) / (np.abs(b_[fin]) + 1e-300))):.3g} relative')
+        except Exception:  # noqa: BLE001   (doubles refused where integers are accepted: nothing to compare)
+            pass
     # id dictionaries
     npix = int(np.prod(info['pshape'])) if info['pshape'] else 1
     lookup = {}
